@@ -286,7 +286,7 @@ func (cs *ContractSet) directive(cur **Contract, body, path string, ln int, pkgP
 			cs.GuardDecls = append(cs.GuardDecls, [2]string{pkgPath, rest})
 			return nil
 		}
-	case "mapinit", "callsonly", "mapwritesonly":
+	case "mapinit", "callsonly", "mapwritesonly", "fieldwritesonly":
 		d, err := parseStaticDecl(word, rest)
 		if err != nil {
 			return fail("%v", err)
